@@ -198,6 +198,15 @@ pub fn run(shard: &Shard) -> i32 {
         }
         return 0;
     }
+    if std::env::var("VH_SMALL").is_ok() {
+        // Miri add-on: a few random histories (recycle bin, position table, in-place updates) under the interpreter
+        let mut rng = crate::util::Rng::derive(shard.seed, &[0x11]);
+        for _ in 0..12 {
+            let h = random_history(&mut rng, 300);
+            with_acc(|a| { judge(&h, a, false); a.bump("random_histories", 1); a.bump("random_history_operations", h.len() as u64); });
+        }
+        return 0;
+    }
     // (a) exhaustive: all histories up to length 5 (quick) / 6 (thorough); sharded by the first two operations
     let alpha = alphabet();
     let maxlen = if shard.quick() { 5 } else { 6 };
